@@ -78,6 +78,8 @@ class AccSem:
         t = sv[0]
         if t == "c":
             return sv[1]
+        if t == "f0" and sv[1][0] == "class":
+            return Sym(f"{sv[1][1][1]}.{sv[2]}", none=False, truth=True)  # a class-level constant (enum member)
         if t == "f0":
             b = self.kind(sv[1], root)
             if b == "frame" and sv[2] == self.store:
@@ -173,14 +175,14 @@ class AccSem:
     def _truth(self, v):
         if isinstance(v, bool) or v is None or isinstance(v, int):
             return bool(v)
-        if isinstance(v, tuple) and v and v[0] == "eqbv":
-            raise Undef("condition on symbolic octets")
+        if isinstance(v, tuple) and v and v[0] in ("eqbv", "nebv", "bit"):
+            raise SymbolicCondition("condition on symbolic octets")
         if isinstance(v, tuple):
             return len(v) > 0
         if isinstance(v, BV):
             if v.is_const():
                 return v.value() != 0
-            raise Undef("condition on symbolic octets")
+            raise SymbolicCondition("condition on symbolic octets")
         if isinstance(v, Sym):
             if v.truth is not None:
                 return v.truth
@@ -298,6 +300,53 @@ class AccSem:
         except Raises as ex:
             return ("raise", str(ex))
         return ("value", v, p)
+
+
+class SymbolicCondition(Undef):
+    """a condition on the symbolic octets themselves: both outcomes are possible in the world"""
+
+
+def run_all(A, cls_key, name, w, no_inline=()):
+    """every path of the accessor that is consistent with the world, conditions on the symbolic octets taken both ways:
+    list of ('value', v) | ('raise', cls) | ('undef', why)"""
+    root = "frame" if cls_key == A.FRAME else "header"
+    fn, ps = A.paths(cls_key, name, no_inline)
+    if fn is None:
+        return [("undef", f"accessor {name} not found")]
+    if isinstance(ps, str):
+        return [("undef", ps)]
+    out = []
+    for p in ps:
+        ok = True
+        res = None
+        for g, pol, _ in p.guards:
+            try:
+                if A._truth(A.ev(g, w, root)) != pol:
+                    ok = False
+                    break
+            except SymbolicCondition:
+                continue
+            except Undef as ex:
+                res = ("undef", f"{name}: guard not decidable in the frame world ({ex})")
+                break
+            except Raises as ex:
+                res = ("raise", str(ex))
+                break
+        if res is not None:
+            out.append(res)
+            continue
+        if not ok:
+            continue
+        if p.status == "raise":
+            out.append(("raise", "explicit"))
+            continue
+        try:
+            out.append(("value", A.ev(p.ret, w, root) if p.ret is not None else None))
+        except Undef as ex:
+            out.append(("undef", f"{name}: value not in the frame domain ({ex})"))
+        except Raises as ex:
+            out.append(("raise", str(ex)))
+    return out or [("undef", f"{name}: no path applies for n={w.n}, control position={w.c}")]
 
 
 class Sym:
